@@ -4,7 +4,7 @@
    run on a 64-byte aligned window of EXACTLY the declared number of bytes; the tmp_bytes_* / bytes_of functions
    are the ones GENERATED from /repo (Gen/C12TmpBytes_gen.v).  fam: 0 = FFT64 family, 1 = NTT120 family. *)
 From PV Require Import Base.MachineInt Model.C12Scratch Gen.C12TmpBytes_gen Model.C12Trees
-  Proofs.C12Arena Proofs.C12Hal Proofs.C12Core Proofs.C12KeySwitch Proofs.C12More Proofs.C12Main.
+  Proofs.C12Arena Proofs.C12Hal Proofs.C12Core Proofs.C12KeySwitch Proofs.C12More Proofs.C12Conv Proofs.C12Main.
 Open Scope Z_scope.
 
 (* ------------------------------------------------------------------ the arena *)
@@ -270,6 +270,236 @@ Theorem C12_suffices_glwe_mul_const : forall (fam n : Z) (res a : infos) (b_len 
   run_takes (tree_glwe_mul_const fam n res a b_len cnv_offset) (0, glwe_mul_const_tmp_bytes fam n res a b_len) <> None.
 Proof. exact main_glwe_mul_const. Qed.
 Print Assumptions C12_suffices_glwe_mul_const.
+
+(* LWE <-> GLWE conversions, LWE key-switch, packing *)
+Theorem C12_suffices_lwe_from_glwe : forall (fam n : Z) (lwe a key : infos),
+  is_fam fam -> pow2 n -> 8 <= n -> wf_infos lwe -> wf_infos a -> wf_infos key -> i_n a = n -> i_rank a = i_rank_in key ->
+  run_takes (tree_lwe_from_glwe fam n lwe a key) (0, lwe_from_glwe_tmp_bytes fam n lwe a key) <> None.
+Proof. exact main_lwe_from_glwe. Qed.
+Print Assumptions C12_suffices_lwe_from_glwe.
+Theorem C12_suffices_lwe_keyswitch : forall (fam n : Z) (res a key : infos),
+  is_fam fam -> pow2 n -> 8 <= n -> wf_infos res -> wf_infos a -> wf_infos key -> i_rank_in key = 1 ->
+  run_takes (tree_lwe_keyswitch fam n res a key) (0, lwe_keyswitch_tmp_bytes fam n res a key) <> None.
+Proof. exact main_lwe_keyswitch. Qed.
+Print Assumptions C12_suffices_lwe_keyswitch.
+(* glwe_from_lwe: every precision of the LWE (since 584fd63 the inner key-switch is sized on the temporary it acts on) *)
+Theorem C12_suffices_glwe_from_lwe : forall (fam n : Z) (res lwe key : infos),
+  is_fam fam -> pow2 n -> 8 <= n -> wf_infos res -> wf_infos lwe -> wf_infos key -> i_rank_in key = 1 ->
+  run_takes (tree_glwe_from_lwe fam n res lwe key) (0, glwe_from_lwe_tmp_bytes fam n res lwe key) <> None.
+Proof. exact main_glwe_from_lwe. Qed.
+Print Assumptions C12_suffices_glwe_from_lwe.
+(* glwe_pack: glwe_pack_tmp_bytes(res, key) serves inputs that have the layout of the result; for inputs of another layout
+   the maximum of the public query over the two layouts serves (the call asserts the per-input requirement on entry);
+   glwe_pack_tmp_bytes(res, key) alone does not: C12_suffices_glwe_pack_refuted *)
+Theorem C12_suffices_glwe_pack : forall (fam n : Z) (res key : infos) (iters steps : Z),
+  is_fam fam -> pow2 n -> 8 <= n -> wf_infos res -> wf_infos key -> i_n res = n -> i_rank res = i_rank_in key ->
+  run_takes (tree_glwe_pack fam n res res key iters steps) (0, glwe_pack_tmp_bytes fam n res key) <> None.
+Proof. exact main_glwe_pack. Qed.
+Print Assumptions C12_suffices_glwe_pack.
+Theorem C12_suffices_glwe_pack_inputs : forall (fam n : Z) (res a key : infos) (iters steps : Z),
+  is_fam fam -> pow2 n -> 8 <= n -> wf_infos res -> wf_infos a -> wf_infos key -> i_n res = n -> i_n a = n ->
+  i_rank res = i_rank_in key -> i_rank a = i_rank_in key ->
+  run_takes (tree_glwe_pack fam n res a key iters steps)
+            (0, Z.max (glwe_pack_tmp_bytes fam n res key) (glwe_pack_tmp_bytes fam n a key)) <> None.
+Proof. exact main_glwe_pack_inputs. Qed.
+Print Assumptions C12_suffices_glwe_pack_inputs.
+Theorem C12_suffices_glwe_pack_refuted :
+  exists fam n res a key iters steps, is_fam fam /\ pow2 n /\ 8 <= n /\ wf_infos res /\ wf_infos a /\ wf_infos key /\
+    i_n res = n /\ i_n a = n /\ i_rank res = i_rank_in key /\ i_rank a = i_rank res /\ i_base2k a = i_base2k res /\ 1 <= iters /\
+    run_takes (tree_glwe_pack fam n res a key iters steps) (0, glwe_pack_tmp_bytes fam n res key) = None.
+Proof. exact suffices_glwe_pack_refuted. Qed.
+Print Assumptions C12_suffices_glwe_pack_refuted.
+
+
+(* GGSW row expansion and the operations built on it *)
+Theorem C12_suffices_ggsw_from_gglwe : forall (fam n : Z) (res tsk : infos),
+  is_fam fam -> pow2 n -> 8 <= n -> wf_infos res -> wf_infos tsk -> i_rank res = i_rank_in tsk ->
+  run_takes (tree_ggsw_from_gglwe fam n res tsk) (0, ggsw_from_gglwe_tmp_bytes fam n res tsk) <> None.
+Proof. exact main_ggsw_from_gglwe. Qed.
+Print Assumptions C12_suffices_ggsw_from_gglwe.
+Theorem C12_suffices_ggsw_keyswitch : forall (fam n : Z) (res a key tsk : infos),
+  is_fam fam -> pow2 n -> 8 <= n -> wf_infos res -> wf_infos a -> wf_infos key -> wf_infos tsk -> i_n a = n -> i_rank a = i_rank_in key -> i_rank res = i_rank_in tsk ->
+  run_takes (tree_ggsw_keyswitch fam n res a key tsk) (0, ggsw_keyswitch_tmp_bytes fam n res a key tsk) <> None.
+Proof. exact main_ggsw_keyswitch. Qed.
+Print Assumptions C12_suffices_ggsw_keyswitch.
+Theorem C12_suffices_ggsw_automorphism : forall (fam n : Z) (res a key tsk : infos),
+  is_fam fam -> pow2 n -> 8 <= n -> wf_infos res -> wf_infos a -> wf_infos key -> wf_infos tsk -> i_n a = n -> i_rank a = i_rank_in key -> i_rank res = i_rank_in tsk ->
+  run_takes (tree_ggsw_automorphism fam n res a key tsk) (0, ggsw_automorphism_tmp_bytes fam n res a key tsk) <> None.
+Proof. exact main_ggsw_automorphism. Qed.
+Print Assumptions C12_suffices_ggsw_automorphism.
+
+(* tensor product: relinearisation (the caller chooses tsk_size <= tsk.size()) and squaring (any cnv_offset whose limb part does not exceed 2 a.size()) *)
+Theorem C12_suffices_glwe_tensor_relinearize : forall (fam n : Z) (res a tsk : infos) (tsk_size : Z),
+  is_fam fam -> pow2 n -> 8 <= n -> wf_infos res -> wf_infos a -> wf_infos tsk -> 0 <= tsk_size <= i_size tsk ->
+  run_takes (tree_glwe_tensor_relinearize fam n res a tsk tsk_size) (0, glwe_tensor_relinearize_tmp_bytes fam n res a tsk) <> None.
+Proof. exact main_glwe_tensor_relinearize. Qed.
+Print Assumptions C12_suffices_glwe_tensor_relinearize.
+Theorem C12_suffices_glwe_tensor_square_apply : forall (fam n : Z) (res a : infos) (cnv_offset : Z),
+  is_fam fam -> pow2 n -> 8 <= n -> wf_infos res -> wf_infos a -> 1 <= i_size a -> 0 <= cnv_offset -> cnv_offset_hi cnv_offset (i_base2k a) <= 2 * i_size a ->
+  run_takes (tree_glwe_tensor_square_apply fam n res a cnv_offset) (0, glwe_tensor_square_apply_tmp_bytes fam n res a) <> None.
+Proof. exact main_glwe_tensor_square_apply. Qed.
+Print Assumptions C12_suffices_glwe_tensor_square_apply.
+
+(* encryption of gadget ciphertexts and of evaluation keys *)
+Theorem C12_suffices_gglwe_encrypt_sk : forall (fam n : Z) (res : infos),
+  is_fam fam -> pow2 n -> 8 <= n -> wf_infos res -> i_n res = n ->
+  run_takes (tree_gglwe_encrypt_sk fam n res) (0, gglwe_encrypt_sk_tmp_bytes fam n res) <> None.
+Proof. exact main_gglwe_encrypt_sk. Qed.
+Print Assumptions C12_suffices_gglwe_encrypt_sk.
+Theorem C12_suffices_ggsw_encrypt_sk : forall (fam n : Z) (res : infos),
+  is_fam fam -> pow2 n -> 8 <= n -> wf_infos res -> i_n res = n ->
+  run_takes (tree_ggsw_encrypt_sk fam n res) (0, ggsw_encrypt_sk_tmp_bytes fam n res) <> None.
+Proof. exact main_ggsw_encrypt_sk. Qed.
+Print Assumptions C12_suffices_ggsw_encrypt_sk.
+Theorem C12_suffices_glwe_switching_key_encrypt_sk : forall (fam n : Z) (res : infos),
+  is_fam fam -> pow2 n -> 8 <= n -> wf_infos res -> i_n res = n ->
+  run_takes (tree_glwe_switching_key_encrypt_sk fam n res) (0, glwe_switching_key_encrypt_sk_tmp_bytes fam n res) <> None.
+Proof. exact main_glwe_switching_key_encrypt_sk. Qed.
+Print Assumptions C12_suffices_glwe_switching_key_encrypt_sk.
+Theorem C12_suffices_glwe_automorphism_key_encrypt_sk : forall (fam n : Z) (res : infos),
+  is_fam fam -> pow2 n -> 8 <= n -> wf_infos res -> i_n res = n ->
+  run_takes (tree_glwe_automorphism_key_encrypt_sk fam n res) (0, glwe_automorphism_key_encrypt_sk_tmp_bytes fam n res) <> None.
+Proof. exact main_glwe_automorphism_key_encrypt_sk. Qed.
+Print Assumptions C12_suffices_glwe_automorphism_key_encrypt_sk.
+Theorem C12_suffices_lwe_switching_key_encrypt_sk : forall (fam n : Z) (res : infos),
+  is_fam fam -> pow2 n -> 8 <= n -> wf_infos res -> i_n res = n ->
+  run_takes (tree_lwe_switching_key_encrypt_sk fam n res) (0, lwe_switching_key_encrypt_sk_tmp_bytes fam n res) <> None.
+Proof. exact main_lwe_switching_key_encrypt_sk. Qed.
+Print Assumptions C12_suffices_lwe_switching_key_encrypt_sk.
+Theorem C12_suffices_glwe_to_lwe_key_encrypt_sk : forall (fam n : Z) (res : infos),
+  is_fam fam -> pow2 n -> 8 <= n -> wf_infos res -> i_n res = n -> 1 <= i_rank_in res ->
+  run_takes (tree_glwe_to_lwe_key_encrypt_sk fam n res) (0, glwe_to_lwe_key_encrypt_sk_tmp_bytes fam n res) <> None.
+Proof. exact main_glwe_to_lwe_key_encrypt_sk. Qed.
+Print Assumptions C12_suffices_glwe_to_lwe_key_encrypt_sk.
+Theorem C12_suffices_lwe_to_glwe_key_encrypt_sk : forall (fam n : Z) (res : infos),
+  is_fam fam -> pow2 n -> 8 <= n -> wf_infos res -> i_n res = n -> 1 <= i_rank_in res ->
+  run_takes (tree_lwe_to_glwe_key_encrypt_sk fam n res) (0, lwe_to_glwe_key_encrypt_sk_tmp_bytes fam n res) <> None.
+Proof. exact main_lwe_to_glwe_key_encrypt_sk. Qed.
+Print Assumptions C12_suffices_lwe_to_glwe_key_encrypt_sk.
+Theorem C12_suffices_glwe_tensor_key_encrypt_sk : forall (fam n : Z) (res : infos),
+  is_fam fam -> pow2 n -> 8 <= n -> wf_infos res -> i_n res = n ->
+  run_takes (tree_glwe_tensor_key_encrypt_sk fam n res) (0, glwe_tensor_key_encrypt_sk_tmp_bytes fam n res) <> None.
+Proof. exact main_glwe_tensor_key_encrypt_sk. Qed.
+Print Assumptions C12_suffices_glwe_tensor_key_encrypt_sk.
+Theorem C12_suffices_gglwe_to_ggsw_key_encrypt_sk : forall (fam n : Z) (res : infos),
+  is_fam fam -> pow2 n -> 8 <= n -> wf_infos res -> i_n res = n ->
+  run_takes (tree_gglwe_to_ggsw_key_encrypt_sk fam n res) (0, gglwe_to_ggsw_key_encrypt_sk_tmp_bytes fam n res) <> None.
+Proof. exact main_gglwe_to_ggsw_key_encrypt_sk. Qed.
+Print Assumptions C12_suffices_gglwe_to_ggsw_key_encrypt_sk.
+
+(* the seeded ("compressed") encryptions *)
+Theorem C12_suffices_glwe_compressed_encrypt_sk : forall (fam n : Z) (res : infos),
+  is_fam fam -> pow2 n -> 8 <= n -> 0 <= i_size res ->
+  run_takes (tree_glwe_compressed_encrypt_sk fam n res) (0, glwe_compressed_encrypt_sk_tmp_bytes fam n res) <> None.
+Proof. exact main_glwe_compressed_encrypt_sk. Qed.
+Print Assumptions C12_suffices_glwe_compressed_encrypt_sk.
+Theorem C12_suffices_gglwe_compressed_encrypt_sk : forall (fam n : Z) (res : infos),
+  is_fam fam -> pow2 n -> 8 <= n -> wf_infos res -> i_n res = n ->
+  run_takes (tree_gglwe_compressed_encrypt_sk fam n res) (0, gglwe_compressed_encrypt_sk_tmp_bytes fam n res) <> None.
+Proof. exact main_gglwe_compressed_encrypt_sk. Qed.
+Print Assumptions C12_suffices_gglwe_compressed_encrypt_sk.
+Theorem C12_suffices_ggsw_compressed_encrypt_sk : forall (fam n : Z) (res : infos),
+  is_fam fam -> pow2 n -> 8 <= n -> wf_infos res -> i_n res = n ->
+  run_takes (tree_ggsw_compressed_encrypt_sk fam n res) (0, ggsw_compressed_encrypt_sk_tmp_bytes fam n res) <> None.
+Proof. exact main_ggsw_compressed_encrypt_sk. Qed.
+Print Assumptions C12_suffices_ggsw_compressed_encrypt_sk.
+Theorem C12_suffices_glwe_switching_key_compressed_encrypt_sk : forall (fam n : Z) (res : infos),
+  is_fam fam -> pow2 n -> 8 <= n -> wf_infos res -> i_n res = n ->
+  run_takes (tree_glwe_switching_key_compressed_encrypt_sk fam n res) (0, glwe_switching_key_compressed_encrypt_sk_tmp_bytes fam n res) <> None.
+Proof. exact main_glwe_switching_key_compressed_encrypt_sk. Qed.
+Print Assumptions C12_suffices_glwe_switching_key_compressed_encrypt_sk.
+Theorem C12_suffices_glwe_automorphism_key_compressed_encrypt_sk : forall (fam n : Z) (res : infos),
+  is_fam fam -> pow2 n -> 8 <= n -> wf_infos res -> i_n res = n ->
+  run_takes (tree_glwe_automorphism_key_compressed_encrypt_sk fam n res) (0, glwe_automorphism_key_compressed_encrypt_sk_tmp_bytes fam n res) <> None.
+Proof. exact main_glwe_automorphism_key_compressed_encrypt_sk. Qed.
+Print Assumptions C12_suffices_glwe_automorphism_key_compressed_encrypt_sk.
+Theorem C12_suffices_glwe_tensor_key_compressed_encrypt_sk : forall (fam n : Z) (res : infos),
+  is_fam fam -> pow2 n -> 8 <= n -> wf_infos res -> i_n res = n ->
+  run_takes (tree_glwe_tensor_key_compressed_encrypt_sk fam n res) (0, glwe_tensor_key_compressed_encrypt_sk_tmp_bytes fam n res) <> None.
+Proof. exact main_glwe_tensor_key_compressed_encrypt_sk. Qed.
+Print Assumptions C12_suffices_glwe_tensor_key_compressed_encrypt_sk.
+Theorem C12_suffices_gglwe_to_ggsw_key_compressed_encrypt_sk : forall (fam n : Z) (res : infos),
+  is_fam fam -> pow2 n -> 8 <= n -> wf_infos res -> i_n res = n ->
+  run_takes (tree_gglwe_to_ggsw_key_compressed_encrypt_sk fam n res) (0, gglwe_to_ggsw_key_compressed_encrypt_sk_tmp_bytes fam n res) <> None.
+Proof. exact main_gglwe_to_ggsw_key_compressed_encrypt_sk. Qed.
+Print Assumptions C12_suffices_gglwe_to_ggsw_key_compressed_encrypt_sk.
+
+(* poulpy-bin-fhe cmux family (size query repaired by 3f00261): cmux / cmux_assign run the product on res, cmux_assign_neg on a
+   temporary taken from the scratch *)
+Theorem C12_suffices_cmux : forall (fam n : Z) (res a s : infos),
+  is_fam fam -> pow2 n -> 8 <= n -> wf_infos res -> wf_infos a -> wf_infos s -> i_n res = n -> i_base2k res = i_base2k s -> i_rank res = i_rank s ->
+  run_takes (tree_cmux fam n res s) (0, cmux_tmp_bytes fam n res a s) <> None.
+Proof. exact main_cmux. Qed.
+Print Assumptions C12_suffices_cmux.
+Theorem C12_suffices_cmux_assign_neg : forall (fam n : Z) (res a s : infos),
+  is_fam fam -> pow2 n -> 8 <= n -> wf_infos res -> wf_infos a -> wf_infos s -> i_n res = n -> i_base2k res = i_base2k s -> i_rank res = i_rank s ->
+  run_takes (tree_cmux_assign_neg fam n res a s) (0, cmux_tmp_bytes fam n res a s) <> None.
+Proof. exact main_cmux_assign_neg. Qed.
+Print Assumptions C12_suffices_cmux_assign_neg.
+
+(* ------------------------------------------------------------------ max_serves_all instantiated: the ONE buffer the crate's own
+   test helpers allocate for several operations (sizes combined with `|`, which dominates the maximum, or with .max) serves
+   each of them *)
+(* test_suite/keyswitch/glwe_ct.rs: switching-key encryption | ciphertext encryption | key-switch *)
+Theorem C12_max_serves_keyswitch_glwe : forall (fam n : Z) (ksk gin gout : infos),
+  is_fam fam -> pow2 n -> 8 <= n -> wf_infos ksk -> wf_infos gin -> wf_infos gout -> i_n ksk = n -> i_n gin = n -> i_rank gin = i_rank_in ksk ->
+  let B := Z.lor (Z.lor (glwe_switching_key_encrypt_sk_tmp_bytes fam n ksk) (glwe_encrypt_sk_tmp_bytes fam n gin)) (glwe_keyswitch_tmp_bytes fam n gout gin ksk) in
+  run_takes (tree_glwe_switching_key_encrypt_sk fam n ksk) (0, B) <> None /\
+  run_takes (tree_glwe_encrypt_sk fam n gin) (0, B) <> None /\
+  run_takes (tree_glwe_keyswitch fam n gout gin ksk) (0, B) <> None.
+Proof. exact main_helper_keyswitch_glwe. Qed.
+Print Assumptions C12_max_serves_keyswitch_glwe.
+(* test_suite/external_product/glwe_ct.rs: GGSW encryption | ciphertext encryption | external product *)
+Theorem C12_max_serves_external_product_glwe : forall (fam n : Z) (ggsw gin gout : infos),
+  is_fam fam -> pow2 n -> 8 <= n -> wf_infos ggsw -> wf_infos gin -> wf_infos gout -> i_n ggsw = n -> i_n gin = n ->
+  let B := Z.lor (Z.lor (ggsw_encrypt_sk_tmp_bytes fam n ggsw) (glwe_encrypt_sk_tmp_bytes fam n gin)) (glwe_external_product_tmp_bytes fam n gout gin ggsw) in
+  run_takes (tree_ggsw_encrypt_sk fam n ggsw) (0, B) <> None /\
+  run_takes (tree_glwe_encrypt_sk fam n gin) (0, B) <> None /\
+  run_takes (tree_glwe_external_product fam n gout gin ggsw) (0, B) <> None.
+Proof. exact main_helper_external_product_glwe. Qed.
+Print Assumptions C12_max_serves_external_product_glwe.
+(* test_suite/automorphism/ggsw_ct.rs: GGSW encryption | automorphism-key encryption | tensor-switching-key encryption | GGSW automorphism *)
+Theorem C12_max_serves_automorphism_ggsw : forall (fam n : Z) (cin cout key tsk : infos),
+  is_fam fam -> pow2 n -> 8 <= n -> wf_infos cin -> wf_infos cout -> wf_infos key -> wf_infos tsk -> i_n cin = n -> i_n key = n -> i_n tsk = n ->
+  i_rank cin = i_rank_in key -> i_rank cout = i_rank_in tsk ->
+  let B := Z.lor (Z.lor (Z.lor (ggsw_encrypt_sk_tmp_bytes fam n cin) (glwe_automorphism_key_encrypt_sk_tmp_bytes fam n key))
+                        (gglwe_to_ggsw_key_encrypt_sk_tmp_bytes fam n tsk))
+                 (ggsw_automorphism_tmp_bytes fam n cout cin key tsk) in
+  run_takes (tree_ggsw_encrypt_sk fam n cin) (0, B) <> None /\
+  run_takes (tree_glwe_automorphism_key_encrypt_sk fam n key) (0, B) <> None /\
+  run_takes (tree_gglwe_to_ggsw_key_encrypt_sk fam n tsk) (0, B) <> None /\
+  run_takes (tree_ggsw_automorphism fam n cout cin key tsk) (0, B) <> None.
+Proof. exact main_helper_automorphism_ggsw. Qed.
+Print Assumptions C12_max_serves_automorphism_ggsw.
+(* test_suite/trace.rs: encryption | decryption | automorphism-key encryption | trace *)
+Theorem C12_max_serves_trace : forall (fam n : Z) (g key : infos) (steps : Z),
+  is_fam fam -> pow2 n -> 8 <= n -> wf_infos g -> wf_infos key -> i_n g = n -> i_n key = n -> i_rank g = i_rank_in key ->
+  let B := Z.lor (Z.lor (Z.lor (glwe_encrypt_sk_tmp_bytes fam n g) (glwe_decrypt_tmp_bytes fam n g))
+                        (glwe_automorphism_key_encrypt_sk_tmp_bytes fam n key))
+                 (glwe_trace_tmp_bytes fam n g g key) in
+  run_takes (tree_glwe_encrypt_sk fam n g) (0, B) <> None /\
+  run_takes (tree_glwe_decrypt fam n g) (0, B) <> None /\
+  run_takes (tree_glwe_automorphism_key_encrypt_sk fam n key) (0, B) <> None /\
+  run_takes (tree_glwe_trace fam n g g key steps) (0, B) <> None.
+Proof. exact main_helper_trace. Qed.
+Print Assumptions C12_max_serves_trace.
+(* test_suite/glwe_packing.rs: encryption .max automorphism-key encryption .max packing *)
+Theorem C12_max_serves_packing : forall (fam n : Z) (g key : infos) (iters steps : Z),
+  is_fam fam -> pow2 n -> 8 <= n -> wf_infos g -> wf_infos key -> i_n g = n -> i_n key = n -> i_rank g = i_rank_in key ->
+  let B := Z.max (Z.max (glwe_encrypt_sk_tmp_bytes fam n g) (glwe_automorphism_key_encrypt_sk_tmp_bytes fam n key)) (glwe_pack_tmp_bytes fam n g key) in
+  run_takes (tree_glwe_encrypt_sk fam n g) (0, B) <> None /\
+  run_takes (tree_glwe_automorphism_key_encrypt_sk fam n key) (0, B) <> None /\
+  run_takes (tree_glwe_pack fam n g g key iters steps) (0, B) <> None.
+Proof. exact main_helper_packing. Qed.
+Print Assumptions C12_max_serves_packing.
+(* test_suite/keyswitch/lwe_ct.rs: LWE switching-key encryption | LWE key-switch *)
+Theorem C12_max_serves_keyswitch_lwe : forall (fam n : Z) (key lin lout : infos),
+  is_fam fam -> pow2 n -> 8 <= n -> wf_infos key -> wf_infos lin -> wf_infos lout -> i_n key = n -> i_rank_in key = 1 ->
+  let B := Z.lor (lwe_switching_key_encrypt_sk_tmp_bytes fam n key) (lwe_keyswitch_tmp_bytes fam n lout lin key) in
+  run_takes (tree_lwe_switching_key_encrypt_sk fam n key) (0, B) <> None /\
+  run_takes (tree_lwe_keyswitch fam n lout lin key) (0, B) <> None.
+Proof. exact main_helper_keyswitch_lwe. Qed.
+Print Assumptions C12_max_serves_keyswitch_lwe.
 
 (* ------------------------------------------------------------------ the hypotheses are satisfiable *)
 Example C12_ex_pow2 : pow2 1024 /\ 8 <= 1024.
